@@ -226,7 +226,7 @@ func cmdCheck(args []string) int {
 			if e.TimeoutS == 0 && *tier == "thorough" {
 				// thorough runs are capped per entry: exploration that is cut off is
 				// reported as truncated in the evidence, never as covered
-				e.TimeoutS = 600
+				e.TimeoutS = 300
 			}
 			if v := os.Getenv("VERIF_ENTRY_TIMEOUT"); v != "" {
 				e.TimeoutS, _ = strconv.Atoi(v)
